@@ -1,11 +1,16 @@
 /- Driver/C12.lean — line-protocol driver for the C12 model (see Base/Proto.lean).
 
-   in : {"op":"reset"}  |  {"op":"step","call":"cmdline|environ|exe|cwd|name","w":{world}}
-   world: {"dir":bool,"zombie":bool,"comm":hex,"cmdline":F,"environ":F,"exe":L,"cwd":L,"fs":[[hex,kind],…]}
+   in : {"op":"reset"}  |  {"op":"step","call":"cmdline|environ|exe|cwd|name|username|terminal","w":{world},
+                            "block":{"stat":[hexname,tty]|null,"uid":nat|null}?}
+        `block` = what the enclosing oneshot() block has cached (absent: not in a block / nothing cached):
+        the model answers with `stepIn`, the specification is asked about `block.view world`
+   world: {"dir":bool,"zombie":bool,"comm":hex,"cmdline":F,"environ":F,"exe":L,"cwd":L,"fs":[[hex,kind],…],
+           "uid":nat?,"tty":nat?,"users":[[uid,hex],…]?,"ttys":[[nr,hex],…]?}
           F = {"data":hex} | {"err":"ENOENT|ESRCH|EACCES"},  L = {"target":hex} | {"err":…}
           kind = "absent"|"denied"|"dir"|"file"|"filex"   (paths not listed are absent)
    out: {"model": out, "spec": out | null}
    out: {"kind":"ok","args":[hex…]} | {"kind":"ok","dict":[[hex,hex]…]} | {"kind":"ok","str":hex}
+        | {"kind":"ok","opt":hex|null}
         | {"kind":"exc","exc":"NoSuchProcess|ZombieProcess|AccessDenied|FileNotFoundError"} -/
 import PsutilModel.Base.Proto
 import PsutilModel.Model.C12Gen
@@ -43,6 +48,14 @@ def parseFsEntry (e : Json) : R (Bytes × FsEnt) :=
     pure (p, k)
   | _ => .error "fs entry must be [hexpath, kind]"
 
+def parseNatBytes (e : Json) : R (Nat × Bytes) :=
+  match e.getArr? with
+  | .ok #[n, b] => do
+    let n ← asNat n
+    let b ← asBytes b
+    pure (n, b)
+  | _ => .error "entry must be [nat, hex]"
+
 def parseWorld (j : Json) : R World := do
   let dir ← boolF j "dir"
   let z ← boolF j "zombie"
@@ -52,13 +65,30 @@ def parseWorld (j : Json) : R World := do
   let ex ← field j "exe" >>= parseLink
   let cw ← field j "cwd" >>= parseLink
   let fs ← listF parseFsEntry j "fs"
+  let uid ← optF asNat j "uid"
+  let tty ← optF asNat j "tty"
+  let users ← optF (asList parseNatBytes) j "users"
+  let ttys ← optF (asList parseNatBytes) j "ttys"
   pure { dirExists := dir, zombie := z, comm := comm, cmdline := cl, environ := en, exe := ex,
-         cwd := cw, fs := fun p => (fs.lookup p).getD .absent }
+         cwd := cw, fs := fun p => (fs.lookup p).getD .absent,
+         uid := uid.getD 0, tty := tty.getD 0,
+         users := fun u => (users.getD []).lookup u, ttys := fun t => (ttys.getD []).lookup t }
+
+def parseBlock (j : Json) : R Block := do
+  let st ← optF (fun v => match v.getArr? with
+      | .ok #[n, t] => do
+        let n ← asBytes n
+        let t ← asNat t
+        pure (n, t)
+      | _ => .error "block.stat must be [hexname, tty]") j "stat"
+  let uid ← optF asNat j "uid"
+  pure ⟨st, uid⟩
 
 def parseCall (s : String) : R Call :=
   if s == "cmdline" then .ok .cmdline else if s == "environ" then .ok .environ
   else if s == "exe" then .ok .exe else if s == "cwd" then .ok .cwd
-  else if s == "name" then .ok .name else .error s!"bad call {s}"
+  else if s == "name" then .ok .name else if s == "username" then .ok .username
+  else if s == "terminal" then .ok .terminal else .error s!"bad call {s}"
 
 def excName : Exc → String
   | .noSuchProcess => "NoSuchProcess"
@@ -74,6 +104,7 @@ def jOut : Out → Json
   | .args r => jRes "args" (jList jBytes) r
   | .dict r => jRes "dict" (jList fun kv => Json.arr #[jBytes kv.1, jBytes kv.2]) r
   | .str r => jRes "str" jBytes r
+  | .opt r => jRes "opt" (jOpt jBytes) r
 
 def handle (d : DSt) (j : Json) : R (DSt × Json) := do
   let op ← strF j "op"
@@ -83,9 +114,12 @@ def handle (d : DSt) (j : Json) : R (DSt × Json) := do
     throw s!"unknown op {op}"
   let c ← strF j "call" >>= parseCall
   let w ← field j "w" >>= parseWorld
-  let (st', out) := step cfg d.st w c
-  let spec := Spec.call d.exeWorlds w c
-  let ews := if c == Call.exe then d.exeWorlds ++ [w] else d.exeWorlds
+  let b ← optF parseBlock j "block"
+  let b := b.getD Block.empty
+  let (st', out) := stepIn cfg b d.st w c
+  let wv := b.view w
+  let spec := Spec.call d.exeWorlds wv c
+  let ews := if c == Call.exe then d.exeWorlds ++ [wv] else d.exeWorlds
   return (⟨st', ews⟩, jObj [("model", jOut out), ("spec", jOpt jOut spec)])
 
 def main : IO Unit := Proto.run (⟨St.init, []⟩ : DSt) (total handle)
